@@ -148,6 +148,13 @@ func (a *Actor) runPass(key reconcile.Request) {
 	}()
 	p.Done = true
 	p.Err = err
+	if w.Cfg.Trace && (err != nil || p.Panic != "") {
+		msg := fmt.Sprint(err)
+		if len(msg) > 300 {
+			msg = msg[:300]
+		}
+		w.Tracef("PASS %d of %s %s ended with error: %s", p.ID, p.Ctrl, p.Key, msg)
+	}
 	p.EndSeq = w.C.Seq
 	p.Requeue = res.Requeue
 	p.After = res.RequeueAfter.Seconds()
